@@ -187,8 +187,14 @@ func (s *Server) sendTransaction(t Transaction) error {
 		return nil
 	}
 
-	_, err := io.Copy(client.Connection, &t)
+	// Serialize the whole transaction first and hand it to the connection in a single Write.  Transactions are sent
+	// from one goroutine each, and io.Copy splits anything larger than its 32 KiB buffer into several writes, which
+	// lets the bytes of two transactions for the same client interleave.
+	b, err := io.ReadAll(&t)
 	if err != nil {
+		return fmt.Errorf("failed to send transaction to client %v: %v", t.ClientID, err)
+	}
+	if _, err := client.Connection.Write(b); err != nil {
 		return fmt.Errorf("failed to send transaction to client %v: %v", t.ClientID, err)
 	}
 
